@@ -69,7 +69,11 @@ def shrink(case):
 
 MANIFEST = {
     "text": "Model: the I/O loop of nsqd/diskqueue.go as a step function over an explicit file system, incl. the read handle's bufio buffer. "
-            "Theorems (Props/C09.v): frame and metadata round trips, and (being extended) the refinement of put/get/close+reopen to a FIFO list. "
+            "Theorems (Props/C09.v): FIFO refinement through the byte level — for every history of puts, gets, sync ticks and clean restarts that "
+            "stays within the first segment, the model's outputs equal the abstract queue's (gets in order, each once; a restart loses and "
+            "duplicates nothing and reports the right depth), by an invariant over file contents, frames, the buffered handle and the read-ahead; "
+            "correctness of the buffered reader for any buffer state; frame and metadata round trips. "
             "Tie: real DiskQueue histories compared op by op (delivered message, depth at rest) and the final directory byte for byte.",
-    "note": "Trusted: Coq kernel+VM; OS file semantics of completed calls; os/bufio/fmt as oracles. See DESIGN.md for which part of the FIFO refinement is proved and which is covered by the differential check only.",
+    "note": "partial: histories with segment roll-over are covered by the differential run against the model, not by the refinement theorem. "
+            "Trusted: Coq kernel+VM; OS file semantics of completed calls; os/bufio/fmt as oracles.",
 }
